@@ -394,7 +394,7 @@ template <class L> class LabeledFamily : public IAlgoFamily {
                 // predecessor table: a path when that source lies on the destination's chain,
                 // std::runtime_error otherwise (small graphs only: n^2 calls per record)
                 json recon = json::array();
-                if (n <= 6) {
+                if (n <= 6 && runOptions().value("recon", false)) {
                     cg.cap = (size_t)-1;
                     auto p1 = algorithms::findVertexPredecessors(cg, s);
                     for (VertexIndex s2 = 0; s2 < n; ++s2)
